@@ -560,7 +560,13 @@ func (m *Machine) When(states S, ctx context.Context) <-chan struct{} {
 	m.activeStatesMx.Lock()
 	defer m.activeStatesMx.Unlock()
 
-	return m.subs.When(m.mustParseStates(states), ctx)
+	statesParsed := m.mustParseStates(states)
+	if len(statesParsed) == 0 {
+		// disposing
+		return m.subs.Closed
+	}
+
+	return m.subs.When(statesParsed, ctx)
 }
 
 // When1 is an alias to When() for a single state.
@@ -729,6 +735,10 @@ func (m *Machine) WhenArgs(
 	defer m.activeStatesMx.Unlock()
 
 	states := m.mustParseStates(S{state})
+	if len(states) == 0 {
+		// disposing
+		return m.subs.Closed
+	}
 
 	return m.subs.WhenArgs(states[0], args, ctx)
 }
